@@ -933,8 +933,16 @@ static int send_frame(const struct websocket *s, uint8_t *payload, size_t length
 	size_t length_comp = length;
 	uint8_t rsv = 0x00;
 	if (s->extension_compression.accepted && (type < WS_CLOSE_FRAME)) {
-		payload_comp = malloc(length * 2);
-		length_comp = websocket_compress(s, payload_comp, payload, length);
+		payload_comp = malloc(WEBSOCKET_COMPRESS_BUFFER_SIZE(length));
+		if (unlikely(payload_comp == NULL)) {
+			return -1;
+		}
+		int compressed = websocket_compress(s, payload_comp, payload, length);
+		if (unlikely(compressed < 0)) {
+			free(payload_comp);
+			return -1;
+		}
+		length_comp = (size_t)compressed;
 		rsv = 0x40;
 		payload_ptr = payload_comp;
 	}
